@@ -5,9 +5,10 @@ import gen as G
 import cont
 import codecloop
 import decodeloop
+import containercodec
 
-MODEL_TARGETS = ["model/Container.vo", "model/CodecLoop.vo", "model/DecodeLoop.vo"]
-COQ_TARGETS = ["props/C05.vo", "proofs/ConstsTie.vo"]
+MODEL_TARGETS = ["model/Container.vo", "model/CodecLoop.vo", "model/DecodeLoop.vo", "model/ContainerCodec.vo", "model/ContainerReplay.vo"]
+COQ_TARGETS = ["props/C05.vo", "proofs/ConstsTie.vo", "proofs/ContainerReplayProofs.vo"]
 THEOREMS = [("C05", ["C05_roundtrip_null", "C05_roundtrip_file", "C05_any_buffered_reader", "C05_build", "C05_blocks", "C05_any_partition",
                      "C05_loop_returns_full_stream", "C05_loop_returns_valid_stream", "C05_loop_any_classification",
                      "C05_contract_inhabited", "C05_loop_before_fix_refuted",
@@ -15,19 +16,21 @@ THEOREMS = [("C05", ["C05_roundtrip_null", "C05_roundtrip_file", "C05_any_buffer
                      "C05_compressed_block_read_back", "C05_compressed_block_read_back_any_values", "C05_snappy_block_read_back",
                      "C05_decoder_model_runs", "C05_end_check_before_fix_refuted", "C05_decoder_contract_inhabited", "C05_toy_block_read_back",
                      "C05_compressed_file_read_back", "C05_snappy_file_read_back"])]
-PROOF_FILES = ["proofs/ContainerReadProofs.v", "proofs/ContainerProofs.v", "proofs/ContainerFinal.v", "proofs/RoundTripProofs.v", "proofs/CodecLoopProofs.v", "proofs/ContainerHeaderProofs.v", "proofs/ContainerChunkProofs.v", "proofs/DecodeLoopProofs.v", "proofs/DecodeLoopDe.v", "proofs/DecodeLoopToy.v", "proofs/DecodeLoopDePrefix.v", "proofs/ContainerCodecProofs.v", "props/C05.v"]
+PROOF_FILES = ["proofs/ContainerReadProofs.v", "proofs/ContainerProofs.v", "proofs/ContainerFinal.v", "proofs/RoundTripProofs.v", "proofs/CodecLoopProofs.v", "proofs/ContainerHeaderProofs.v", "proofs/ContainerChunkProofs.v", "proofs/DecodeLoopProofs.v", "proofs/DecodeLoopDe.v", "proofs/DecodeLoopToy.v", "proofs/DecodeLoopDePrefix.v", "proofs/ContainerCodecProofs.v", "proofs/ContainerReplayProofs.v", "props/C05.v"]
 TRUSTED_BASE = [
     "Coq 8.16.1 kernel; no axioms (Print Assumptions: closed)",
     "hand-written model/Container.v of writer/mod.rs and reader/mod.rs (block compressor abstract in the writer; the reader model is the null codec), tied by the correspondence runs of C15/C16/C17 (per-call outcomes, sink bytes, item sequences)",
     "hand-written model/CodecLoop.v of writer/compression.rs (the three grow-the-buffer encode loops, snappy framing with the reader-side CRC check), tied to the crate by hook H3 (hooks/H3.diff: overridable start length of the output buffer, per-call trace): every recorded trace is replayed through the extracted model loop, which must make the same calls (input length, window length), take the same decision and hand on the same bytes",
     "the compression libraries (flate2/miniz_oxide, bzip2, snap, xz2, zstd) are ABSTRACT: the loop theorems hold for every library meeting CodecLoop.stream_contract_valid (resp. stream_contract); each clause is validated on the real traces of every run (coverage.notes.codec_loops), not proved of the libraries",
     "hand-written model/DecodeLoop.v of reader/decompression.rs (BufReader(capacity) over an abstract streaming decoder over Take(block size); std's BufReader fill/bypass discipline; the end-of-block check: 1-byte read, Take limit; snappy block), tied to the crate by hook H4 (hooks/H4.diff: overridable BufReader capacity, trace of every decoder read and of the end-of-block check): every recorded check is replayed through the extracted model (DecodeLoop.replay_end: same decoder request, same decision, same Take limit afterwards). ABSTRACTION: values are decoded by De.de in slice mode on the decompressed bytes still to come and the BufReader state is advanced by the bytes taken (DecodeLoop.v header; C11 = de through any chunking equals de on the slice); the streaming decoders are ABSTRACT: the theorems hold for every decoder meeting DecodeLoop.stream_decoder_contract, whose clauses are validated on every run on the reads the crate made and on direct probes of the decoder types the crate uses (coverage.notes.decode_side), not proved of the libraries; the contract is inhabited (C05_decoder_contract_inhabited: the small lagging codec of DecodeLoop.v meets it for every input, cut and extension)",
-    "OCaml driver commands codecloop / snappy / decend (parsing and printing only), harness commands crt / decode / dprobe (decblock.rs), codecloop (push_serialized + finish_block on one container writer; independent oracles: one library call with a large buffer, the library's own decoder; zlib.crc32 of Python for the snappy trailer)",
+    "hand-written model/ContainerCodec.v (ccr_file: the reader of WHOLE files with compressed blocks -- cr_open, then per block count / size varints, negative checks, block_open / block_run of DecodeLoop.v or snappy_run, end-of-block check, sync marker, the chunk plan threaded through the blocks), tied to the crate by running the extracted function on every compressed file the run reads through `crt` (lib/containercodec.py, OCaml command `ccr`): same bytes, same kind of source (slice / the same chunk plan), the value decoder cc_vdec for the schema text of the header (Python json -> AST -> Parse.parse_schema), the codec named in the header, and a REPLAY streaming decoder (model/ContainerReplay.v) that answers from the reads hook H4 recorded for each block (bytes produced or Err, compressed bytes consumed = difference of the Take limits; a block finds its reads by the bytes its Take holds and the chunk-plan state at its first byte); compared: schema text, user metadata, the values before the first error (borrows erased), the way the run ends (end of stream; class of the first error: negative count/size, block cannot be opened, decoder Err / decompressed data left / Take not exhausted in the end check, sync mismatch, other = value error | unreadable count/size | short marker), under both extreme read policies (every refill a fill_buf; every refill of >= capacity outstanding bytes a bypassing read). TRUSTED in this tie: hook H4 records lengths only -- the BYTES of each read are the block's data decoded by the compression library on its own (harness `decode`, cross-checked against Python's zlib / bz2 / lzma on complete streams) sliced by the produced counts; snap::raw and CRC32 enter as tables (harness `decode snappy`, zlib.crc32); the runner's own walk of the file layout (block offsets for the replay keys). NOT tied by it: the request sizes on the model's real path (policy parameter; the end check's request is tied by `decend`), message texts, the per-call pretend_eof logic after the first error, runs too long for the list-based model (skipped and counted in coverage.notes), null-codec files (Container.cr_run). One tolerance (coverage.notes ... read_ahead): a decoder Err that reaches the crate's deserializer inside a value whose bytes were all out (read_slice calls fill_buf first, also for 0 bytes) fails that value in the crate; the model delivers it and meets the same Err afterwards",
+    "OCaml driver commands codecloop / snappy / decend / ccr (parsing and printing only; ccr also slices the blocks' bytes out of the file for the replay keys), harness commands crt / decode / dprobe (decblock.rs), codecloop (push_serialized + finish_block on one container writer; independent oracles: one library call with a large buffer, the library's own decoder; zlib.crc32 of Python for the snappy trailer)",
     "Rust harness (container writer/reader driver, chunk-controlled BufRead)",
 ]
 ASSUMPTIONS = [
     "proved (ContainerCodecProofs.v, model/ContainerCodec.v): WHOLE FILES with compressed blocks -- a file written by the writer model with any block codec function enc (any values, block layout, flushes, closing op, sink schedule) read by the compressed-file reader (cr_open, then per block count / size / BufReader(cap) over the decoder over Take / end check / sync marker) yields the written metadata, exactly the written values, then end of stream, for every decoder meeting the contract on the blocks the session cuts, every capacity >= 1, every read policy, from a slice and from ANY chunking of the source (C05_compressed_file_read_back); the snappy layout as an instance (C05_snappy_file_read_back); computed two-block examples incl. damaged variants (ToyExample)",
     "proved (DecodeLoopProofs.v, DecodeLoopDe.v): for every streaming decoder meeting stream_decoder_contract ((i) the output of a prefix is a prefix, no error and no early 0 on the complete stream, (iii) only a read returning 0 guarantees the stream was consumed to its end, (iv) bytes behind the end are not consumed), every BufReader capacity >= 1, every chunking of the source (slice or chunk plan) and every read policy of the deserializer: a block laid out as the writer does (complete stream of the encodings of the count values, sync marker) yields exactly the values, the end-of-block check passes -- also with zero-byte datums (decoder never read before the check) and lagging decoders -- and the source is left behind the marker (C05_compressed_block_read_back, with De.de as value decoder; _any_values for any value decoder); snappy blocks read back (C05_snappy_block_read_back); the check of commit 8463ea9^ is refuted on concrete runs (C05_end_check_before_fix_refuted). the contract is inhabited by a concrete lagging decoder (C05_decoder_contract_inhabited). NOT proved: that any REAL decoder meets the contract; the deserializer re-modelled over the BufReader (abstraction above); the per-call pretend_eof logic of deserialize_seed_next for compressed files (the whole-file reader of model/ContainerCodec.v works at block granularity)",
+    "tested, not proved: that ccr_file is what the crate does on whole compressed files -- the extracted function run next to the crate on every compressed file of the run with the decoder replayed from the H4 trace (valid files: decode-side payloads x capacities {1,2,7,64,8192} x sources {slice, 1, 2, 7 bytes per fill_buf}, and a sample of the histories' files with real schemas under random capacities and chunk plans): same schema text, metadata, values, end of stream (coverage.notes whole_file_reader_model_vs_crate)",
     "proved (CodecLoopProofs.v): for every library meeting stream_contract_valid, every input, every output buffer of length >= 1 left by previous blocks (empty: START >= 1), each of the three encode loops (deflate, bzip2, xz status classifications as in the crate) ends with StreamEnd and a true assertion -- no Err, no panic --, within |x| + obound x + 1 library calls, and hands a valid complete stream for x to the block writer; under stream_contract (the stream is a function enc of the input) exactly enc x; final buffer length = initial * 2^(calls-1); if 'not finished' is only answered with a full window: calls = 1 or initial * 2^(calls-2) <= |stream|; the classifications before ef7c759 are refuted; the contract is inhabited; snappy framing round trips and rejects any other trailer. NOT modelled: usize overflow of the doubling, allocation failure, the zstandard/snappy libraries (one call each)",
     "observed by the run, reported in coverage.notes: miniz_oxide at level 1 does not meet the stronger contract (its stream depends on where the output windows ended; both streams decode) -- only stream_contract_valid applies to it",
     "proved: write-then-read = identity for the null codec -- every list of conforming values, every approx_block_size, every interleaving of serialize / push / finish_block, closing by finish_block, into_inner or drop, every sink schedule on which the calls return Ok; any partition into blocks reads back (C05_any_partition); the whole file incl. the header (C05_roundtrip_file: cr_open returns the metadata written) and through a BufRead with any chunking (C05_any_buffered_reader)",
@@ -95,6 +98,25 @@ def run(ctx):
         if len(samples) < 5:
             samples.append({"codec": c, "approx_block_size": b, "ops": [o[0] for o in ops], "file_bytes": len(p["sink"])})
     rr = C.run_parallel(C.AVRODRIVE, rl)
+    # the histories' files with compressed blocks (real schemas, several blocks, flushes): the WHOLE file through the model of the
+    # compressed-file reader with the decoder replayed from the H4 trace, random BufReader capacity and source
+    wjobs = []
+    wmax = 70 if ctx["tier"] == "quick" else 1500
+    rng_main, rng = rng, random.Random(ctx["seed"] * 1000003 + 505)
+    for (h, ops, expected, c, b), line, res in zip(hs, wl, wr):
+        p = cont.parse_cw(res)
+        if c == "null" or p is None or p.get("build_err") or len(wjobs) >= wmax:
+            continue
+        f = p["sink"]
+        small = len(f) < 3000
+        fam = cont.codec_family(c)
+        cap = 0 if fam == "snappy" else (rng.choice([1, 2, 7, 64, 0]) if small else rng.choice([64, 0, 0]))
+        mode = rng.choice(["slice", "(chunks 1)", "(chunks 7)", "(chunks %d %d %d)" % (rng.randint(1, 9), rng.randint(1, 300), rng.randint(1, 9000))]) if small \
+            else rng.choice(["slice", "(chunks 4096)", "(chunks %d %d)" % (rng.randint(1, 9), rng.randint(1000, 9000))])
+        wjobs.append({"file": f, "cap": cap, "mode": mode, "ncalls": len(expected) + 3,
+                      "where": "%s approx_block_size %d (%d bytes, %d values) capacity %d %s" % (c, b, len(f), len(expected), cap, mode)})
+    wf = containercodec.compare(wjobs)
+    rng = rng_main
     # model of the reader (null codec) on the same files
     mlines, midx = [], []
     for i, (line, (wline, mode, exp, c, b, h)) in enumerate(zip(rl, rmeta)):
@@ -116,8 +138,9 @@ def run(ctx):
         if not ok:
             violations.append({"impl_case": wline[:3000], "what": "read back (%s) differs from what was written: %s" % (mode, why),
                                "reader_case": line[:3000]})
-    notes = {}
-    extra_eval = 0
+    notes = {"whole_file_reader_model_vs_crate(files of the histories)": wf["notes"]}
+    diffs.extend(wf["diffs"])
+    extra_eval = wf["evaluations"]
     extra_distinct = set()
     for part in (codecloop.run_loops, codecloop.run_snappy, codecloop.run_oneshot, decodeloop.run_valid):
         r = part(random.Random(ctx["seed"] * 7919 + 55), ctx["tier"])
